@@ -81,3 +81,117 @@ pub fn min_len_i128(v: i128) -> usize {
     }
     16
 }
+
+/// Fixed-size pool of nodes from which symbolic trees / DAGs are built through the public API.
+pub struct Pool<const CAP: usize> {
+    pub nodes: [NodePtr; CAP],
+    pub n: usize,
+}
+
+impl<const CAP: usize> Pool<CAP> {
+    pub fn new() -> Self {
+        Pool { nodes: [NodePtr::NIL; CAP], n: 0 }
+    }
+    pub fn push(&mut self, p: NodePtr) {
+        self.nodes[self.n] = p;
+        self.n += 1;
+    }
+    /// any earlier node, chosen by the solver
+    pub fn pick(&self) -> NodePtr {
+        let i: usize = kani::any();
+        kani::assume(i < self.n);
+        self.nodes[i]
+    }
+    /// add `k` pairs whose children are arbitrary earlier nodes: every tree and DAG with k pairs
+    pub fn grow(&mut self, a: &mut Allocator, k: usize) -> NodePtr {
+        let mut last = self.nodes[self.n - 1];
+        let mut i = 0;
+        while i < k {
+            let l = self.pick();
+            let r = self.pick();
+            last = a.new_pair(l, r).unwrap();
+            self.push(last);
+            i += 1;
+        }
+        last
+    }
+}
+
+/// the three atom representations of DESIGN 2.4
+#[derive(Clone, Copy, PartialEq, Eq)]
+pub enum Repr {
+    /// whatever `new_atom` chooses (inline when canonical small, heap otherwise)
+    Native,
+    /// substring view into a larger heap atom
+    View,
+    /// heap copy produced by new_concat of two halves (always lands on the heap)
+    Concat,
+}
+
+/// Build an atom with the given concrete length `len` (<= 4) and symbolic content in a
+/// chosen representation; returns the node and its bytes (first `len` entries valid).
+pub fn atom_in_repr(a: &mut Allocator, bytes: [u8; 4], len: usize, r: Repr) -> NodePtr {
+    match r {
+        Repr::Native => a.new_atom(&bytes[..len]).unwrap(),
+        Repr::View => {
+            let mut base = [0u8; 6];
+            let mut i = 0;
+            while i < 4 {
+                base[i + 1] = bytes[i];
+                i += 1;
+            }
+            base[0] = 0xa5;
+            base[5] = 0x5a;
+            let b = a.new_atom(&base).unwrap();
+            a.new_substr(b, 1, 1 + len as u32).unwrap()
+        }
+        Repr::Concat => {
+            if len < 2 {
+                // concat of fewer than 2 non-empty parts: use nil + part (two nodes => copies)
+                let p = a.new_atom(&bytes[..len]).unwrap();
+                let nil = a.nil();
+                a.new_concat(len, &[nil, p]).unwrap()
+            } else {
+                let p = a.new_atom(&bytes[..1]).unwrap();
+                let q = a.new_atom(&bytes[1..len]).unwrap();
+                a.new_concat(len, &[p, q]).unwrap()
+            }
+        }
+    }
+}
+
+/// `new_atom` of the first `len` bytes with every memcpy of concrete size (case split on len).
+pub fn new_atom_len(a: &mut Allocator, b: &[u8; 4], len: usize) -> NodePtr {
+    match len {
+        0 => a.new_atom(&[]).unwrap(),
+        1 => a.new_atom(&b[..1]).unwrap(),
+        2 => a.new_atom(&b[..2]).unwrap(),
+        3 => a.new_atom(&b[..3]).unwrap(),
+        _ => a.new_atom(&b[..4]).unwrap(),
+    }
+}
+
+/// Fixed-capacity writer (no heap growth): the sink for serializer harnesses.
+pub struct FixedBuf<const N: usize> {
+    pub buf: [u8; N],
+    pub len: usize,
+}
+impl<const N: usize> FixedBuf<N> {
+    pub fn new() -> Self {
+        FixedBuf { buf: [0u8; N], len: 0 }
+    }
+}
+impl<const N: usize> std::io::Write for FixedBuf<N> {
+    fn write(&mut self, b: &[u8]) -> std::io::Result<usize> {
+        let mut i = 0;
+        while i < b.len() {
+            self.buf[self.len] = b[i];
+            self.len += 1;
+            i += 1;
+        }
+        Ok(b.len())
+    }
+    fn flush(&mut self) -> std::io::Result<()> {
+        Ok(())
+    }
+}
